@@ -91,6 +91,7 @@ type simWorld struct {
 	writeLatency func(conn, n int, dst netip.Addr) time.Duration // n counts writes per connection from 0
 	writeErr     func(conn, n int, dst netip.Addr) error
 	dialResult   func(n int) error // nil = success
+	dialResultFor func(iface string, n int) error
 }
 
 type simStateCall struct {
@@ -339,7 +340,14 @@ func (w *simWorld) newDialer(iface string, mode system.DialerMode) *system.Diale
 		w.mu.Lock()
 		w.dials = append(w.dials, w.now())
 		res := w.dialResult
+		resFor := w.dialResultFor
 		w.mu.Unlock()
+		if resFor != nil {
+			if err := resFor(iface, i); err != nil {
+				w.eventf("dial %d of %s fails: %v", i, iface, err)
+				return nil, err
+			}
+		}
 		if res != nil {
 			if err := res(i); err != nil {
 				w.eventf("dial %d fails: %v", i, err)
